@@ -326,7 +326,14 @@ def run_ambig_index(ctx: Ctx) -> RuleResult:
         res.ob(site, 'the wrapper chain is one list display', False)
         res.finding(ib, ib.node, 'cannot find the wrapper chain list', construct='chain')
         return res
-    elts = [norm(e) for e in lists[0].elts]
+    def _elt_text(e):
+        # an element kept in a local (a loop-invariant wrapper built once) stands for its definition
+        if isinstance(e, ast.Name):
+            defs_ = [d_.value for d_ in ib.body_nodes() if isinstance(d_, ast.Assign) and len(d_.targets) == 1 and norm(d_.targets[0]) == e.id]
+            if len(defs_) == 1:
+                return norm(defs_[0])
+        return norm(e)
+    elts = [_elt_text(e) for e in lists[0].elts]
 
     def idx(sub):
         for i, t in enumerate(elts):
